@@ -63,7 +63,7 @@ for it in range(N):
                 elif op == "close" and k in s.children: s.close(k, update=upd)
                 elif op == "flatten": s.flatten()
                 elif op == "transact" and k in s.children and isinstance(s.children[k], SecurityBase): s.children[k].transact(float(rs.choice([10.0, -4.0, 25.0])), update=upd)
-                elif op == "update": root.update(idx[d])
+                elif op == "update": (root if rs.rand() < 0.5 else s).update(idx[d])        # the whole tree, or a sub-strategy alone
             except ZeroDivisionError: raise
             trace.append((str(idx[d].date()), op, s.name, k, upd))
             dirty = dirty or (not upd and op not in ("update", "flatten"))
